@@ -78,7 +78,8 @@ CHECKS = {
              "constant-annihilating A (C01) gives 1^T B u = sum b (conservation; with the lumped diagonal B this is sum B_ii u_i and the seed "
              "vector sums to the number of distinct seeds); kernel entries are the spectral sums, symmetric in (p,q), and diagonal is the "
              "kernel at p=q=x. The matrix/right-hand side handed to SuperLU are captured and compared with the model; heat.kernel, "
-             "heat.diagonal and both avg_edge_length routines are re-traced from source on every run and bridged by proof, and compared on random "
+             "heat.diagonal, both avg_edge_length routines and the glue of diffusion (matrix B + m*l^2*A, indicator right-hand side, Solver(lump=True, "
+             "aniso), output returned unchanged) are re-traced from source on every run and bridged by proof, and compared on random "
              "spectra and all argument shapes.",
         ref="DESIGN.md 6/C07",
         note=NOTE + "SuperLU exact solve assumed (monitored); additivity/similarity clauses are corollaries of linearity and C04 evaluated by the oracle; aniso option not modelled.",
@@ -122,7 +123,9 @@ CHECKS = {
              "eigenpair with lam != sigma <=> (A-sigma B) y = B x with y = x/(lam-sigma); lam -> 1/(lam-sigma) positive and strictly decreasing "
              "on [0,inf), so the k largest transformed values are the k smallest eigenvalues and ascending order is the reverse; eigenvalues "
              ">= 0 (Rayleigh quotient); eigenvectors of distinct eigenvalues are B-orthogonal; A f = 0 iff f is constant on every element, "
-             "hence on edge-connected components (triangles and tetrahedra). sigma<0 and the call shape are re-extracted from the source; "
+             "hence on edge-connected components (triangles and tetrahedra). eigs is re-traced from source on symbolic matrices with recorded "
+             "external kernels on every run (factorised matrix = A - sigma*B entry by entry, sigma = -1/100 < 0, eigsh(A, k, B, sigma, "
+             "OPinv = lu.solve), output returned unchanged) and bridged by proof; sigma<0 and the call shape are also re-extracted from the source text; "
              "the matrix actually factorised and the eigsh arguments are captured and compared. PARTIAL: convergence/completeness of ARPACK "
              "is assumed and monitored on every call (residuals, Gram matrix, order, dense reference, zero count vs components).",
         ref="DESIGN.md 6/C03",
